@@ -42,15 +42,20 @@ def parse_rules(e):
     return rules
 
 
-def find_rule(e, loc):
+def find_rule(e, loc, st=None):
+    sym = False
     for r in e.token_rules:
         if loc.key != r.key: continue
         if r.idx is None: return r
         if len(loc.idx) >= 2:
             k = z3.simplify(loc.idx[1])
-            if z3.is_int_value(k) and k.as_long() == r.idx: return r
-            if not z3.is_int_value(k): return 'symbolic'
-    return None
+            if z3.is_int_value(k):
+                if k.as_long() == r.idx: return r
+            else:
+                # symbolic index: decided by the path condition?
+                if st is not None and not e.feasible(st, k != r.idx): return r
+                sym = True
+    return 'symbolic' if sym else None
 
 
 def tok_loc(e, r, loc):
@@ -59,7 +64,7 @@ def tok_loc(e, r, loc):
 
 def hook(e, fr, st, kind, loc, new, old, ins, site):
     if not hasattr(e, 'token_rules'): e.token_rules = parse_rules(e)
-    r = find_rule(e, loc)
+    r = find_rule(e, loc, st)
     if r is None: return
     if r == 'symbolic':
         if kind != 'load':
